@@ -33,6 +33,9 @@ type Config struct {
 	// StateAtBlockNumber takes the seeded branches of pruner/retention.go (false: blockchain.New's
 	// default, an unseeded floor: header -> hash -> hash index)
 	Seeded bool `json:"seeded_floor"`
+	// Univ: the universe of addresses and slots the history is drawn from and read over: "" = the chain
+	// generator's, "ff" = the byte-boundary universe (reads.go universeTables)
+	Univ string `json:"universe,omitempty"`
 }
 
 func kindName(newState bool) string {
@@ -112,7 +115,7 @@ func NewEngine(cfg Config, r *lib.RNG, driverPath, scratch string, res *lib.Resu
 	g := lib.NewChainGen(r, cfg.SrcNew, opt)
 	e := &Engine{cfg: cfg, g: g, res: res, drained: map[felt.Felt]bool{}, stale: map[felt.Felt]map[felt.Felt]felt.Felt{}, seen: map[string]bool{},
 		scratch: scratch, stats: map[string]int{}, held: map[string][]*heldReader{}, commits: map[int]bool{}}
-	e.u = newUniverse(g)
+	e.u = newUniverse(g, cfg.Univ)
 	e.nodes = append(e.nodes, &node{name: "src", kind: kindName(cfg.SrcNew), newSt: cfg.SrcNew, bc: g.Src, store: g.SrcDB})
 	for i, ns := range cfg.Dst {
 		n := &node{name: fmt.Sprintf("dst%d", i), kind: kindName(ns), newSt: ns}
@@ -563,6 +566,15 @@ func (e *Engine) Revert() {
 		}
 	}
 	e.shadowRevert(head.SU.StateDiff)
+	for a := range head.SU.StateDiff.DeployedContracts {
+		if endsInFF(&a) {
+			e.hit("ff:revert-of-the-deployment-of-an-address-ending-in-0xff")
+			up := new(felt.Felt).Add(&a, lib.F(1))
+			if c, ok := prev.Contracts[*up]; ok && prev.Deployed[*up] && len(c.Storage) > 0 {
+				e.hit("ff:revert-of-the-deployment-of-an-address-ending-in-0xff-below-a-contract-with-storage")
+			}
+		}
+	}
 	delete(e.commits, int(head.Block.Number))
 	e.reverted = append(e.reverted, *head.Block.Hash)
 	e.lastRev = e.descs[len(e.descs)-1]
